@@ -340,6 +340,20 @@ theorem W2_graph_wraps_fixed :
     (estimate w2).layers = 10 ∧ (estimate w2).sizes = [111] ∧ ¬ NoWrap w2 ∧
     (estimate { w2 with ovSafe := false }).sizes = [111] := by decide
 
+/-- two GPUs; the second reports a minimum-memory figure of 2^64 - 15 and 100 bytes free -/
+def w3 : Inp :=
+  { lib := .other, gpus := [⟨1000, 0⟩, ⟨100, 18446744073709551601⟩], overhead := 0, projs := [],
+    vision := (0, 0), blk0 := some 10, blocks := [(some 10, 0)], graphPartial := 1, graphFull := 1,
+    gqa := 1, outNorm := none, output := none, tokenEmbd := none, numGPU := -1, ovSafe := true }
+
+/-- **Witness of finding W2 (remaining wrap-around after fix C16-W1).**  A GPU minimum-memory
+    figure near 2^64 makes the admission requirement `gzo+graph+minimum+2*layer` wrap to 6: the
+    GPU (100 bytes free) is admitted and reported with `minimum + layer = 2^64 - 5` bytes planned
+    (no layer lands on it; the layer goes to the other GPU). -/
+theorem W3_minimum_wraps_fixed :
+    (estimate w3).layers = 1 ∧ (estimate w3).split = some [1, 0] ∧
+    (estimate w3).sizes = [21, 18446744073709551611] ∧ ¬ NoWrap w3 := by decide
+
 /-- a two-GPU, three-block model with an output layer, uneven layers -/
 def ex2 : Inp :=
   { lib := .other, gpus := [⟨400, 10⟩, ⟨150, 5⟩], overhead := 7, projs := [(3, 2)], vision := (0, 0),
